@@ -433,6 +433,7 @@ func TestC13(t *testing.T) {
 		}
 		writer := genWriterOp(rt, w, pre)
 		writer.N = 500
+		w.writeFiles(writer.Files) // the model looks at the files a result names
 		if w.Predict(pre, writer).Decision == MustReject {
 			stats.Label("writer.rejected_by_model")
 			stats.Eval()
@@ -676,6 +677,7 @@ func TestC03Conc(t *testing.T) {
 		}
 		writer := genWriterOp(rt, w, pre)
 		writer.N = 500
+		w.writeFiles(writer.Files) // the model looks at the files a result names
 		if w.Predict(pre, writer).Decision == MustReject {
 			stats.Label("writer.rejected_by_model")
 			stats.Eval()
